@@ -5,9 +5,8 @@ B508/B509 snmp_security_check.
 
 programs(rng, tier) -> list of dict(src=..., include=[test ids], config=dict|None)
 
-Shapes deliberately NOT generated (the model marks them, see Plugins/Crypto.v):
-  * float-valued configuration thresholds (the harness cannot render YAML floats into `jv`);
-  * a list-valued B505 threshold together with a list-valued key size (Python would compare the lists).
+Shapes deliberately NOT generated:
+  * float-valued configuration values (the harness cannot render YAML floats into `jv`; `jv` has no float).
 """
 from gen.programs import spellings
 
@@ -104,7 +103,9 @@ def key_values(thresholds):
              "%d.25" % (thresholds[-1] - 1), "1e3", "1e999", "0.0", "1e-5", "2.048e3", "1.5e300",
              "'1024'", "''", "'x'", "b'1024'", "b''", "2j", "0j", "True", "False", "None", "...",
              "[]", "[1024]", "()", "(1,)", "{1}", "{}", "{1: 2}", "{[1]}", "zz_size", "zz_o.size", "zz_f()",
-             "f'{zz_v}'", "1000 + 24", "-1024", "'%d' % 5", "'10'.format()", "0x400", "0o2000", "1_024"]
+             "f'{zz_v}'", "1000 + 24", "-1024", "'%d' % 5", "'10'.format()", "0x400", "0o2000", "1_024",
+             "1023.9999999999999", "1023.99999999999999999", "1024.0000000000002", "2047.9999999999998", "5e-324",
+             "1e22", "1e23", "123456789012345678.0", ".5", "1_0.2_5e0_1", "[4]", "['a']", "[[1]]"]
     return vals
 
 
@@ -178,6 +179,16 @@ BAD_KEY_CONFIGS = [
     {"weak_cryptographic_key": dict(DEFAULT_KEY_CFG, extra=1)},
     {"other_option": {"x": 1}},
 ]
+LIST_KEY_CONFIG = keycfg(dsa_high=[5], dsa_medium=[1, "b"], rsa_high=["a"], rsa_medium=[[2]], ec_high=[], ec_medium=[None])
+LIST_KEY_VALUES = ["[4]", "[5]", "[6]", "[5, 1]", "[4, zz_f()]", "[1, 'a']", "[1, 'b']", "[1, 'c']", "[1]", "[2]", "[0, {}]",
+                   "['a']", "['']", "['b']", "['A']", "['a', 1]", "[[1]]", "[[2]]", "[[3]]", "[[2, 0]]", "[[]]", "[None]", "[...]",
+                   "[(1,)]", "[5.0]", "[4.5]", "[5.5]", "[1.0, 'a']", "[True]", "[]", "[b'a']", "[{}]", "[1, ['b']]", "[2j]", "[1, 2]",
+                   "7", "'s'", "(4,)", "{4}", "1.5"]
+HUGE_KEY_CONFIG = keycfg(dsa_high=10 ** 23 - 1, dsa_medium=10 ** 23, rsa_high=2 ** 53 + 1, rsa_medium=2 ** 53 + 2,
+                         ec_high=2 ** 53, ec_medium=2 ** 53 + 1)
+HUGE_KEY_VALUES = ["1e23", "1e+23", "99999999999999991611392", "99999999999999991611393", "9007199254740993.0", "9007199254740992.0",
+                   "9007199254740994.0", "9007199254740993", "9007199254740992", "1e22", "9.999999999999999e22", "1.0000000000000001e23",
+                   "1e999", "2e308", "1.7976931348623157e308"]
 USER_KEY_CONFIGS = [
     (keycfg(dsa_high=100, dsa_medium=200, rsa_high=300, rsa_medium=400, ec_high=250, ec_medium=500), [100, 200, 300, 400]),
     (keycfg(dsa_high=2048, dsa_medium=1024, rsa_high=4096, rsa_medium=512, ec_high=500, ec_medium=200), [512, 1024, 2048, 4096]),
@@ -198,6 +209,9 @@ def gen_b505(rng, full):
             al2 = [["%s=%s" % (kw, v)] for v in vals] + [["zz_p"] * pos + [v] for v in vals]
             out += calls_programs(q, al2, config=cfg, spell=None if full else ("import_m", "from_m_import_f_as"),
                                   multi=False)
+        for cfg, vals in [(LIST_KEY_CONFIG, LIST_KEY_VALUES), (HUGE_KEY_CONFIG, HUGE_KEY_VALUES)]:
+            al2 = [["%s=%s" % (kw, v)] for v in vals] + [["zz_p"] * pos + [v] for v in vals]
+            out += calls_programs(q, al2, config=cfg, spell=None if full else ("import_m", "from_m_import_f_as"), multi=False)
         vals = ["512", "1024", "4096", "0", "'s'", "zz_n", "[1]", "None", "1024.0", "True"]
         al3 = [["%s=%s" % (kw, v)] for v in vals] + [["zz_p"] * pos + ["512"], []]
         for cfg in BAD_KEY_CONFIGS:
